@@ -3,7 +3,7 @@ from __future__ import annotations
 
 import ast
 
-from ..an import avoiding_path, cut, flows_from_calls, is_method_call, reaching_defs
+from ..an import avoiding_path, cut, flows_from_calls, is_method_call, reaches, reaching_defs, value_alts
 from ..cfg import calls_at
 from ..core import Checker
 from ..loader import Func, norm, walk_expr, walk_own
@@ -45,35 +45,62 @@ def _longest(ck: Checker) -> None:
     prog = ck.prog
     fn = prog.func("index.index", "StorageMapping.__getitem__")
     g = ck.cfg(fn)
+    def _is_prefix_cmp(e) -> bool:
+        if not (isinstance(e, ast.Compare) and len(e.ops) == 1 and isinstance(e.ops[0], ast.Eq)):
+            return False
+        sides = {norm(e.left).replace(" ", ""), norm(e.comparators[0]).replace(" ", "")}
+        for s_ in sides:
+            other = (sides - {s_}).pop() if len(sides) == 2 else None
+            if other and s_ == f"key[:len({other})]":
+                return True
+        return False
+
+    def _is_len_guard(e) -> bool:
+        t = norm(e).replace(" ", "")
+        return isinstance(e, ast.Compare) and ("len(" in t and "len(key)" in t)
+
     apps = [(n, c) for n in g.nodes.values() for c in calls_at(n) if is_method_call(c, "append")]
-    ck.floor("C18.longest", len(apps), 1, "candidate appends in StorageMapping.__getitem__")
+    lst = None
+    if apps:
+        lst = norm(apps[0][1].func.value)
+    else:
+        from ..an import collection_builds
+
+        for n in g.nodes.values():
+            a_ = n.ast
+            if n.kind == "stmt" and isinstance(a_, ast.Assign) and isinstance(a_.targets[0], ast.Name):
+                for bld in collection_builds(g, fn.node, a_.targets[0].id):
+                    if bld.node is n and isinstance(bld.src, ast.Call) and is_method_call(bld.src, "items") and norm(bld.src.func.value) == "self._map":
+                        lst = a_.targets[0].id
+                        atoms = []
+                        for i in bld.ifs:
+                            atoms += i.values if isinstance(i, ast.BoolOp) and isinstance(i.op, ast.And) else [i]
+                        okc = any(_is_prefix_cmp(x) for x in atoms) and all(_is_prefix_cmp(x) or _is_len_guard(x) for x in atoms)
+                        ck.require(okc, "C18.longest", fn, n, "candidates are exactly the storages whose prefix is a prefix of the key", f"candidate filter {[norm(x) for x in atoms]} is not 'prefix is a prefix of the key'")
+                        tn = bld.target_names()
+                        ck.require(isinstance(bld.elt, ast.Tuple) and [norm(x) for x in bld.elt.elts] == tn, "C18.longest", fn, n, "candidates keep (prefix, storage) pairs", f"candidate element is {norm(bld.elt)}", construct=f"{n.text()[:60]} / element")
+    if lst is None:
+        ck.floor("C18.longest", 0, 1, "candidate collection in StorageMapping.__getitem__")
     for n, c in apps:
         def is_prefix(t, lab):
-            e = t.ast
-            if not (t.kind == "test" and lab == "T" and isinstance(e, ast.Compare) and len(e.ops) == 1 and isinstance(e.ops[0], ast.Eq)):
-                return False
-            s = {norm(e.left).replace(" ", ""), norm(e.comparators[0]).replace(" ", "")}
-            return s == {"key[:len(prefix)]", "prefix"}
+            return t.kind == "test" and lab == "T" and _is_prefix_cmp(t.ast)
 
         w = cut(g, [n.id], is_prefix)
         ck.require(w is None, "C18.longest", fn, n, "a storage is a candidate only if its prefix is a prefix of the key", "a storage whose prefix is not a prefix of the key can become a candidate", witness=g.fmt_path(w) if w else None)
-        # no other filter drops a matching prefix
         h = g.nodes[n.loops[-1]] if n.loops else None
         if h is not None:
             def skip(a, lab, b):
-                e = a.ast
                 if lab == "exc":
                     return True
                 if a.kind == "test" and is_prefix(a, "T") and lab == "F":
                     return True
-                if a.kind == "test" and isinstance(e, ast.Compare) and norm(e).replace(" ", "") == "len(prefix)>len(key)" and lab == "T":
+                if a.kind == "test" and _is_len_guard(a.ast):
                     return True
                 return False
 
             r = g.reach([d for lab, d in h.succ if lab == "T"], skip_node=lambda x: x.id == n.id, skip_edge=skip)
             ck.require(h.id not in r, "C18.longest", fn, h, "every matching prefix becomes a candidate", "a matching prefix can be dropped from the candidates", construct="candidates / NODROP")
     # ordering: longest first
-    lst = norm(apps[0][1].func.value) if apps else None
     ordered = False
     sort_node = None
     for n in g.nodes.values():
@@ -95,7 +122,7 @@ def _longest(ck: Checker) -> None:
                 sort_node = n
     ck.require(ordered, "C18.longest", fn, sort_node or fn.node, "candidates are ordered by descending prefix length", "candidates are not ordered longest-prefix-first: a shorter prefix's storage can shadow the designated one")
     # per role: first non-None wins
-    pick = [h for h in g.nodes.values() if h.kind == "for" and sort_node is not None and avoiding_path(g, h.id, lambda x: x.id == sort_node.id) is None and h.id != (apps[0][0].loops[-1] if apps and apps[0][0].loops else -1)]
+    pick = [h for h in g.nodes.values() if h.kind == "for" and sort_node is not None and avoiding_path(g, h.id, lambda x: x.id == sort_node.id) is None and h.id != (apps[0][0].loops[-1] if apps and apps[0][0].loops else -1) and norm(h.ast.iter) == lst]
     ck.floor("C18.longest", len(pick), 1, "selection loop over ordered candidates")
     ph = pick[0]
     for role in ROLES:
@@ -135,18 +162,16 @@ def _roles(ck: Checker) -> None:
             # guarded by both being object storages
             w = cut(g, [n.id], lambda t, lab: t.kind == "test" and lab == "T" and norm(t.ast) == "isinstance(data, ObjectStorage)")
             ck.require(w is None, "C18.roles", fn, n, "object transfer is used only between object stores", "object transfer can be attempted on a non-object storage", construct=f"{name}: isinstance guard")
-            cnt = {"transferred": None, "failed": None}
             res_name = None
             for x in g.nodes.values():
                 if x.kind == "stmt" and isinstance(x.ast, ast.Assign) and x.ast.value is c:
                     res_name = norm(x.ast.targets[0])
-            augs = [x for x in g.nodes.values() if x.kind == "stmt" and isinstance(x.ast, ast.AugAssign) and res_name and res_name in norm(x.ast.value) and x.loops == n.loops]
-            got = {norm(x.ast.value): norm(x.ast.target) for x in augs if isinstance(x.ast.op, ast.Add)}
             first = "pushed" if name == "push" else "fetched"
-            ok = got.get(f"len({res_name}.transferred)") == first and got.get(f"len({res_name}.failed)") == "failed"
-            ck.require(ok, "C18.counts", fn, n, f"{first} += len(result.transferred); failed += len(result.failed)", f"{name} counters are advanced by {got}")
-            for x in augs:
-                ck.require(avoiding_path(g, x.id, lambda y: y.id == n.id, start=n.loops[-1] if n.loops else None) is None, "C18.counts", fn, x, "counters use this iteration's result", "a counter can be advanced without this iteration's transfer having run", construct=f"{x.text()} / after transfer")
+            want = {first: f"len({res_name}.transferred)", "failed": f"len({res_name}.failed)"}
+            for counter, expr_txt in want.items():
+                augs = [x for x in g.nodes.values() if x.kind == "stmt" and isinstance(x.ast, ast.AugAssign) and isinstance(x.ast.op, ast.Add) and norm(x.ast.target) == counter]
+                hit = [x for x in augs if any(norm(a) == expr_txt for a in value_alts(g, x, x.ast.value, depth=3)) and reaches(g, n.id, x.id, skip_edge=lambda a, l, b: bool(n.loops) and b.id == n.loops[0])]
+                ck.require(bool(hit), "C18.counts", fn, n, f"{counter} += {expr_txt} for this iteration's transfer", f"{name}: counter `{counter}` is never advanced by {expr_txt} after the transfer (advanced by {[norm(x.ast.value) for x in augs]})", construct=f"{name}: {counter} += {expr_txt}")
         rets = [norm(r.value) for r in walk_own(fn.node) if isinstance(r, ast.Return) and r.value is not None]
         first = "pushed" if name == "push" else "fetched"
         ck.require(rets == [f"({first}, failed)"], "C18.counts", fn, fn.node, f"returns ({first}, failed)", f"{name} returns {rets}", construct=f"{name}: return")
